@@ -255,6 +255,17 @@ def cases(tier, seed):
             out.append(('chunks/renamed/' + ','.join(map(str, t2)), ('chunks', t2)))
         if len(t) >= 4 and knn_ok(t):
             out.append(('knn/renamed/' + ','.join(map(str, t2)), ('knn', t2)))
+    # several DIFFERENT negative labels are all "unknown" (the rule is label < 0, not label == -1)
+    for t in label_vectors((-2, -1, 0, 1), 2, min(5, b['pairs_len'])):
+        if -2 not in t:
+            continue
+        lab = np.array(t)
+        if n_pos_pairs(lab) >= 1 and n_neg_pairs(lab) >= 1:
+            out.append(('pairs/two_unknown_markers/' + ','.join(map(str, t)), ('pairs', t)))
+        if any(x >= 0 for x in t):
+            out.append(('chunks/two_unknown_markers/' + ','.join(map(str, t)), ('chunks', t)))
+        if len(t) >= 4 and knn_ok(t):
+            out.append(('knn/two_unknown_markers/' + ','.join(map(str, t)), ('knn', t)))
     # rotating member (G4): one random longer label vector per kind
     rs = np.random.RandomState(7000 + seed)
     t = tuple(int(x) for x in rs.randint(-1, 3, size=b['pairs_len'] + 3))
